@@ -952,7 +952,9 @@ class TupleOf(DataType):
         return tuple(sub.import_value(elem) for sub, elem in zip(self.members, value))
 
     def format_value(self, value, unit=True):
-        return f"({', '.join([sub.format_value(elem, unit) for sub, elem in zip(self.members, value)])})"
+        # a tuple with a single member needs a trailing comma to be a python tuple literal
+        return f"({', '.join([sub.format_value(elem, unit) for sub, elem in zip(self.members, value)])}" \
+               f"{',' if len(self.members) == 1 else ''})"
 
     def compatible(self, other):
         if not isinstance(other, TupleOf):
